@@ -124,9 +124,10 @@ def _deq_all(m, sg, allt):
     return out
 
 
-def localise(interp, mb_q, mb_ref, data, tol, ctx=None):
+def localise(interp, mb_q, mb_ref, data, tol, ctx=None, constant=False):
     """first operator of the quantized model whose (dequantized) result leaves the tolerance although its
-    operands are within it; returns its call-site class or None"""
+    operands are within it; returns its call-site class or None. With `constant`, "leaves the tolerance" also covers a
+    result that is constant although the reference result is not."""
     a = interp.run(mb_q, data, want_all=True)
     b = interp.run(mb_ref, data, want_all=True)
     if ctx is not None:
@@ -149,7 +150,10 @@ def localise(interp, mb_q, mb_ref, data, tol, ctx=None):
                 return False
             if not np.all(np.isfinite(va[n])):
                 return True
-            return float(np.max(np.abs(va[n] - vb[n]))) > tol(float(np.max(np.abs(vb[n]))))
+            m_ = float(np.max(np.abs(vb[n])))
+            if constant and vb[n].size > 1 and m_ > 1e-2 and np.ptp(vb[n]) > 0.5 * m_ and np.ptp(va[n]) == 0:
+                return True
+            return float(np.max(np.abs(va[n] - vb[n]))) > tol(m_)
         for op in sg.operators:
             outs = [pl.tname(sg.tensors[i]) for i in op.outputs if i != -1]
             if not any(n in vb for n in outs):
@@ -233,6 +237,8 @@ def compare_float_modes(ctx, interp, case, res, fail):
     for sig in a[1]:
         for ra, rb in zip(a[1][sig], b[1][sig]):
             for k in ra:
+                if np.asarray(rb[k]).dtype == bool:
+                    continue   # a mask flips when its operand moves across the threshold: no bound applies
                 ya, yb = np.asarray(ra[k], dtype=np.float64), np.asarray(rb[k], dtype=np.float64)
                 if not np.all(np.isfinite(yb)):
                     continue
@@ -277,13 +283,22 @@ def compare_static(ctx, interp, case, res, fail, max_ops=4):
     mo = pl.read(res["out"])
     amag = abs_magnitudes(interp, case.mb, data, ctx)
     types = {t.type for sg in mo.subgraphs for t in sg.tensors}
-    # relative term of the bound per (activation bits, weight bits); measured on the unchanged tree over several thousand cases the
-    # 99th percentile of (error - 8 steps) / (|terms| magnitude x ops) is 0.01 (w8) / 0.03 (w4): the constants leave a factor 4-8
-    crel = {(8, 8): 0.08, (16, 8): 0.05, (8, 4): 0.2, (16, 4): 0.1}[(16 if TT.INT16 in types else 8, 4 if TT.INT4 in types else 8)]
+    abits, wbits = (16 if TT.INT16 in types else 8), (4 if TT.INT4 in types else 8)
+    # Two comparisons. (1) against the float model: the statement's observable, with a loose relative term (4-bit weights alone may
+    # move an output by 15 %). (2) against the float model with the DEQUANTIZED constants (built from the input model + independent
+    # decoder): what remains is activation quantization and clipping to the ranges calibrated on the float model, so the bound is
+    # "activation term + distance between the two float models"; this is what exposes a kernel reading the stored constants wrongly.
+    # Constants being close to the originals is C05's oracle.
+    c_float = {(8, 8): 0.2, (16, 8): 0.2, (8, 4): 0.6, (16, 4): 0.6}[(abits, wbits)]
+    c_ref = 0.06 if abits == 8 else 0.015
+    ref, _ = reference_model(case.mb, res["out"])
+    c = outputs_of(interp, ref, data, ctx) if ref is not None else ("none", None)
     for sig in a[1]:
         sd = [x for x in (mo.signatureDefs or []) if x.signatureKey.decode() == sig]
-        for ra, rb in zip(a[1][sig], b[1][sig]):
+        for oi, (ra, rb) in enumerate(zip(a[1][sig], b[1][sig])):
             for k in ra:
+                if np.asarray(rb[k]).dtype == bool:
+                    continue   # a mask flips when its operand moves across the threshold: no bound applies
                 ya, yb = np.asarray(ra[k], dtype=np.float64), np.asarray(rb[k], dtype=np.float64)
                 if not np.all(np.isfinite(yb)) or yb.size == 0:
                     continue
@@ -303,17 +318,30 @@ def compare_static(ctx, interp, case, res, fail, max_ops=4):
                                     qt = pl.quant_tuple(sgq.tensors[prod.inputs[0]])
                             if qt:
                                 step = float.fromhex(qt["scale"][0])
-                mag = max(float(np.max(np.abs(yb))), amag.get((sig, k), 0.0))
-                tol = 8 * step + crel * mag * nops + 1e-3
-                off = ya.shape != yb.shape or np.max(np.abs(ya - yb)) > tol
                 ymag = float(np.max(np.abs(yb)))
+                mag = max(ymag, amag.get((sig, k), 0.0))
+                tol = 8 * step + c_float * mag * nops + 1e-3
+                err = float(np.max(np.abs(ya - yb))) if ya.shape == yb.shape else float("inf")
+                off = err > tol
+                which = "float output"
+                if not off and c[0] == "ok":
+                    yc = np.asarray(c[1][sig][oi][k], dtype=np.float64)
+                    if yc.shape == ya.shape and np.all(np.isfinite(yc)):
+                        # every quantized tensor is clipped to the range calibrated on the FLOAT model, so the integer model may sit
+                        # anywhere between the two float models: allow their distance D on top of the activation-only term
+                        dist = float(np.max(np.abs(yc - yb)))
+                        tol_r = 8 * step + c_ref * mag * nops + dist + 1e-3
+                        err_r = float(np.max(np.abs(ya - yc)))
+                        if err_r > tol_r:
+                            off, err, tol, which = True, err_r, tol_r, "output of the float model with the dequantized constants"
                 const = np.ptp(yb) > 0.5 * ymag and ymag > 1e-2 and np.ptp(yb) > 16 * step and yb.size > 1 and np.ptp(ya) == 0
                 if off or const:
-                    cls = localise(interp, res["out"], case.mb, data, lambda mag_: max(crel * mag_, 0.5 * tol) + 1e-3, ctx)
+                    cls = localise(interp, res["out"], ref if (c[0] == "ok" and which != "float output") else case.mb, data,
+                                   lambda mag_: (c_ref if which != "float output" else c_float) * mag_ + 8 * step + 1e-3, ctx, constant=const)
                     if cls is None:   # deviation below the localisation tolerance everywhere: blame the output's own producer
                         cls = producer_class(res["out"], sig, k)
                     if const:
                         return fail(f"static-range output {k} is constant although the float output is not (first operator off: {cls})",
                                     f"c07-constant:{cls}")
-                    return fail(f"static-range output {k} is {float(np.max(np.abs(ya - yb))):.4g} away from the float output "
-                                f"(tolerance {tol:.4g}, magnitude {mag:.4g}, {nops} ops, first operator off: {cls})", f"c07-mismatch:{cls}")
+                    return fail(f"static-range output {k} is {err:.4g} away from the {which} "
+                                f"(tolerance {tol:.4g}, magnitude {mag:.4g}, {nops} ops, a{abits}w{wbits}, first operator off: {cls})", f"c07-mismatch:{cls}")
